@@ -136,8 +136,7 @@ def ref(base_uri, output_uri, factor, chunksize, nproc=1, columns=None, dtypes=N
     factor = int(factor)
     if columns is None:
         columns = ["count"]
-    if dtypes is None:
-        dtypes = {}
+    dtypes = {} if dtypes is None else dict(dtypes)      # a private copy: the caller's dict is never written (F28)
     have = clr.pixels().dtypes
     for col in columns:
         if col not in have:
